@@ -74,7 +74,31 @@ pub fn run(args: &Args) {
             let nsheets = books[bi].get_sheet_count();
             let si = rng.below(nsheets as u64) as usize;
             let pos = (rng.range(1, 5), rng.range(1, 6));
-            let mut op = rng.below(19);
+            let mut op = rng.below(20);
+            if op == 19 {
+                // a save that fails after its sheets were serialised (a chart whose series refers to a sheet that no longer
+                // exists makes the chart writer panic): whatever that save registered must not show up in later saves
+                let mut doomed = books[bi].clone();
+                let r = guard(|| {
+                    let _ = doomed.new_sheet("Doomed");
+                    let last = doomed.get_sheet_count() - 1;
+                    doomed.get_sheet_mut(&last).unwrap().get_cell_mut((1, 1)).set_value_string(format!("doomed-{}-{}", k, opi));
+                    let mut from = umya_spreadsheet::structs::drawing::spreadsheet::MarkerType::default();
+                    let mut to = umya_spreadsheet::structs::drawing::spreadsheet::MarkerType::default();
+                    from.set_coordinate("C3");
+                    to.set_coordinate("F9");
+                    let mut chart = Chart::default();
+                    chart.new_chart(ChartType::LineChart, from, to, vec!["Doomed!$A$1:$A$3"]);
+                    doomed.get_sheet_mut(&0).unwrap().add_chart(chart);
+                    doomed.get_sheet_mut(&0).unwrap().get_cell_mut((6, 6)).set_value_string(format!("doomed-text-{}-{}", k, opi));
+                    doomed.remove_sheet(last).unwrap();
+                    save(&doomed, false)
+                });
+                let failed = !matches!(r, Ok(Ok(_)));
+                o.count(if failed { "saves.failing-on-purpose" } else { "saves.meant-to-fail-but-succeeded" }, 1);
+                hist.push(format!("a save of a scratch clone of book{} {}", bi, if failed { "FAILED (as intended)" } else { "succeeded" }));
+                continue;
+            }
             if op >= 15 {
                 op = if op == 18 { 14 } else { 11 }; // more saves and lazy reloads
             }
